@@ -42,7 +42,21 @@ THEOREMS = [
     "Mpc.C10_levels_mod_not_topological",
     "Mpc.C10_levels_mod_wrong_output",
     "Mpc.C10_driver_compute",
+    # inputs as the integers the API accepts (Model/GmwInt.lean: big.Int.Xor / big.Int.Bit on every integer)
+    "Mpc.C10_input_share_twos_complement",
+    "Mpc.C10_int_run_is_residue_run",
+    "Mpc.C10_outputs_int",
+    "Mpc.C10_outputs_args",
+    "Mpc.C10_history_int",
+    "Mpc.C10_abs_words_agree_nonneg",
+    "Mpc.C10_abs_words_run_wrong",
 ]
+
+# input representations (harness/cmd/c10/repr.go): session classes and value classes
+REPR_CLASSES = ["sess-compiled", "sess-synthetic", "hist", "ext"]
+REPR_VALUES = ["zero", "in_range", "minus_one", "negative_in_signed_range", "min_signed", "max_signed", "max_unsigned",
+               "two_pow_w", "minus_two_pow_w", "positive_wider_than_argument", "negative_wider_than_argument",
+               "negative_word_boundary_magnitude", "positive_word_boundary_magnitude", "small_negative"]
 
 # internal dimensions of the implementation that bound "every circuit" (harness/cmd/c10/ext.go)
 EXT_CLASSES = ["deep", "wide-and", "wide-rest", "many-out", "wide-in"]
@@ -119,6 +133,12 @@ def facts(ctx):
                [norm(m[0] + ": " + m[1]) for m in
                 re.findall(r"case circuit\.(XNOR|INV):(.*?)(?=case circuit|default:)", nsrc, re.S)],
                ["XNOR: bit = a ^ b if self.id == 0 { bit ^= 1 }", "INV: if self.id == 0 { bit = a ^ 1 } else { bit = a }"])
+    ctx.advise("the own input enters the wires through big.Int.Xor and big.Int.Bit only (two's complement on every integer; "
+               "decided by the repr correspondence and oracle on negative / oversized *big.Int inputs)",
+               [bool(re.search(r"self\.shared\.Xor\(self\.shared,\s*self\.input\)", nsrc)),
+                bool(re.search(r"nw\.setWires\(self,\s*self\.shared\)", nsrc)),
+                re.findall(r"nw\.wires\.SetBit\(nw\.wires,\s*ofs\+i,\s*(\w+\.\w+\(i\))\)", body("gmw/network.go", r"\(nw \*Network\) setWires\("))],
+               [True, True, ["input.Bit(i)"]])
     csrc = vlib.strip_go_comments(vlib.repo_file("circuit/circuit.go"))
     al = body("circuit/circuit.go", r"\(c \*Circuit\) AssignLevels\(")
     ctx.advise("width of the level counter: `type Level uint32`, AssignLevels' per-wire scratch table and maximum are of "
@@ -151,7 +171,7 @@ def replay_request():
         f = sys.argv[sys.argv.index("--replay") + 1]
         f = f if os.path.isabs(f) else os.path.join(vlib.VERIF, f)
         fl = (json.load(open(f)).get("failure") or {})
-        m = re.match(r"hx-c10 (sess|hist|ext) -seed (\d+) -n (\d+) -only (\d+) -tier \w+$", fl.get("rerun", ""))
+        m = re.match(r"hx-c10 (sess|hist|ext|repr) -seed (\d+) -n (\d+) -only (\d+) -tier \w+$", fl.get("rerun", ""))
         return (m.group(1), int(m.group(2)), int(m.group(3)), int(m.group(4))) if m else None
     except Exception:
         return None
@@ -162,6 +182,9 @@ WHAT = {"tb": "tripleBatch c shares of every party (shadow IKNP instances)",
         "sess": "complete wire-share vectors, consumed triple words and outputs of every party",
         "ext": "extreme circuits (AND depth / level width / outputs / input width across 2^8 and 2^16): gate levels of the real "
                "AssignLevels, level oracle, every party's outputs; share-level run ops where the pool snapshot covers the run",
+        "repr": "input representations: sessions, histories and wide-input circuits whose inputs are IOArg.Parse texts / direct "
+                "*big.Int values of any sign and magnitude (runi / histi / lvli: the model reads the signed decimals with "
+                "big.Int.Xor / big.Int.Bit semantics): complete wire stores, consumed words and outputs of every party",
         "hist": "histories of 2..5 Run calls on one Network: complete wire stores (stale bits included) and outputs of "
                 "every party after every call, consumed triple words over the whole history"}
 
@@ -196,11 +219,13 @@ def run(ctx):
                                   "networks; the oracle fails again." % (mode, case, seed))
             print("the replayed case no longer fails; running the full check")
         # ext first: the boundary cases are few and decide fast (n = the whole plan of the tier)
-        plan = [("ext", 1000, ctx.seed), ("tb", 24 if quick else 200, ctx.seed), ("pool", 1000 if quick else 8000, ctx.seed),
+        plan = [("ext", 1000, ctx.seed), ("repr", 48 if quick else 240, ctx.seed), ("tb", 24 if quick else 200, ctx.seed),
+                ("pool", 1000 if quick else 8000, ctx.seed),
                 ("sess", 84 if quick else 330, ctx.seed), ("hist", 28 if quick else 160, ctx.seed)]
         if not quick:
             plan.append(("sess", 330, ctx.seed + 1000))
             plan.append(("hist", 160, ctx.seed + 1000))
+            plan.append(("repr", 240, ctx.seed + 1000))
         for mode, n, seed in plan:
             ops, out, meta = ctx.run_hx(mode, n, seed=seed, timeout=1700)
             ctx.absorb_meta(meta, prefix=mode + "_")
@@ -237,11 +262,30 @@ def run(ctx):
                    hc.get("hist_consecutive_different_circuits_same_and_depth", 0) > 0 and
                    hc.get("hist_consecutive_fewer_wires", 0) > 0 and hc.get("hist_consecutive_more_wires", 0) > 0 and
                    hc.get("hist_hist_ops", 0) > 0, str(hc))
+        rc = {k: v for k, v in c.items() if k.startswith("repr_")}
+        rg = lambda k: rc.get("repr_" + k, 0)  # noqa: E731
+        ctx.oblige("input representations: every session class (%s) ran with a NEGATIVE *big.Int, a magnitude wider than "
+                   "the argument and both forms (IOArg.Parse text, direct value); a negative *big.Int at the first, a middle "
+                   "and the last party of sessions with 2, 3, 4 and 5 parties; zero; negative values of arguments over 64 "
+                   "bits and negative magnitudes over 64 bits; int, uint, bool, struct (with a negative member) and array "
+                   "arguments; every value class (%s); wide-in circuits at 257 and 65537 bits; runi, histi and lvli ops "
+                   "were replayed on the model" % (", ".join(REPR_CLASSES), ", ".join(REPR_VALUES)),
+                   all(rg("class_" + k) > 0 and rg(k + "_negative_big_int") > 0 and rg(k + "_magnitude_wider_than_argument") > 0
+                       and rg(k + "_form_text") > 0 and rg(k + "_form_direct") > 0 for k in REPR_CLASSES) and
+                   all(rg("negative_%s_party" % k) > 0 for k in ("first", "middle", "last")) and
+                   all(rg("calls_parties_%d" % k) > 0 for k in (2, 3, 4, 5)) and rg("zero") > 0 and
+                   rg("negative_argument_over_64_bits") > 0 and rg("negative_magnitude_over_64_bits") > 0 and
+                   all(rg("arg_" + k) > 0 for k in ("int", "uint", "bool", "struct", "array")) and
+                   rg("struct_member_negative") > 0 and
+                   all(rg("member_" + k) + rg("direct_" + k) > 0 for k in REPR_VALUES) and
+                   rg("ext_wide_in_257") > 0 and rg("ext_wide_in_65537") > 0 and
+                   rg("run_ops") > 0 and rg("hist_ops") > 0 and rg("lvli_ops") > 0,
+                   str({k: v for k, v in rc.items() if not k.startswith("repr_rel_")}))
         ctx.coverage["programs"] = c.get("sess_sessions", 0)
         if ctx.widen:
             # widened search for a concrete failing input
             for s in range(ctx.seed + 7000, ctx.seed + 7003):
-                for mode, n in (("ext", 1000), ("tb", 60), ("sess", 60), ("hist", 40)):
+                for mode, n in (("ext", 1000), ("repr", 96), ("tb", 60), ("sess", 60), ("hist", 40)):
                     ops, out, meta = ctx.run_hx(mode, n, seed=s, tag="-widen", timeout=1700)
                     ctx.absorb_meta(meta, prefix="widen_")
                 if ctx.fails:
@@ -263,7 +307,14 @@ def run(ctx):
         "levels-only; thorough: every size as a session, depth 131073 as a session, 2^20+1 levels-only), inputs of the deep "
         "sessions sensitised (chosen first; operands picked by value so that the chain wire is 1 at almost every step), "
         "the level oracle (gate levels of the real AssignLevels are a topological schedule of Network.run) on every "
-        "circuit of ext, sess and hist. distinct = distinct op lines")
+        "circuit of ext, sess and hist; repr: the inputs of every session mode in the forms the public API accepts - "
+        "IOArg.Parse of decimal / 0x / 0b / 0o / signed texts and directly passed *big.Int values; per int / uint member "
+        "of width w: " + ", ".join(REPR_VALUES) + " (wider: up to 130 bits beyond w; word boundaries: 2^32, 2^63, 2^64, "
+        "2^65, 2^128 +-1); classes " + ", ".join(REPR_CLASSES) + " (compiled GMW programs for 2..5 parties with signed / "
+        "unsigned / bool / struct / array arguments, synthetic circuits with re-declared arguments incl. 63..130-bit "
+        "ones, histories of 2..5 calls, wide-in circuits of 257 / 65537 bits); one party per call (index = case mod "
+        "parties) is forced to hold a negative *big.Int; reference = Circuit.Compute on the same member values. "
+        "distinct = distinct op lines")
     ctx.assumptions += [
         "the bit-COT correlation r = s xor Delta0*b is a hypothesis of C10_triples_valid (property C06 proves it for the "
         "IKNP model when n % 64 = 0; tripleBatch sizes are 4096 and 8192 - checked as a fact; the tb harness re-checks it "
@@ -298,7 +349,12 @@ def run(ctx):
         "histories of 2..5 Run calls on one Network: the model's runHist reproduces every party's complete wire store "
         "(bits left by earlier calls included) and outputs after every call and the words consumed by the whole history. "
         "(e) extreme circuits across 2^8 / 2^16 in AND depth, batch size, level width, outputs, input width: real gate "
-        "levels = model levels, level oracle = topoCheck, every party's outputs = compute. "
+        "levels = model levels, level oracle = topoCheck, every party's outputs = compute. (f) input representations: the "
+        "op lines carry the signed decimals of every flattened member; the model (Model/GmwInt.lean: bigIntXor, "
+        "bigIntBit mirror math/big Int.Xor / Int.Bit) reproduces the complete wire stores and outputs of sessions, "
+        "histories and wide-input circuits for negative and oversized *big.Int inputs (C10_outputs_int, "
+        "C10_outputs_args, C10_history_int: every party's output = compute on the Bit()s of the integers, any sign and "
+        "magnitude; C10_abs_words_run_wrong: a reader of the magnitude words returns another value on -3). "
         "Oracle on the real code: gate levels after AssignLevels(TargetGMW) are a topological schedule of Network.run "
         "(every circuit run), results = Circuit.Compute at every party, xor of shares = reference value on every wire, "
         "triple relation on pool snapshots / Pool.Get output / tripleBatch output, lockstep consumption, completion under a "
